@@ -21,7 +21,8 @@ ID = 'C11'
 RULE = ('one case = one family (base + extension, 3-6 entries/synsets each, dense relation multigraph) observed in 4 scopes; for every '
         'entity 6 type-argument sets; distinct = document hash; non-trivial = the family has a relation cycle or self-loop and a '
         'pair of relations differing only in dc:type or metadata')
-ASSUMPTIONS = ['identifiers unique inside the family; ILIs absent or disjoint between base and extension (ILI expansion is C12)',
+ASSUMPTIONS = ['relation_paths(end=e) (undocumented parameter) yields the simple paths from the entity to e, as its source reads',
+               'identifiers unique inside the family; ILIs absent or disjoint between base and extension (ILI expansion is C12)',
                "closure() identifies entities by id string, which is exact inside one family"]
 FLOORS = {'*': {'relquery.compared': 3000, 'closure.compared': 500, 'paths.compared': 500}}
 N = {'quick': 40, 'thorough': 1500}
@@ -187,6 +188,20 @@ def check_entities(rec, w, view, steps, r, label):
                 continue
             argsets = [(), ('*',), (r.choice(types_pool),), tuple(r.sample(types_pool, 2)), ('no_such_type',),
                        tuple(r.sample(types_pool, 3)) + ('no_such_type',)]
+            # Relation objects are values: equal (and hashing alike) across calls, unequal to anything that is not a relation
+            rm1, rm2 = list(x.relation_map()), list(x.relation_map())
+            rec.event('relation.values.checked', len(rm1))
+            for a, b in zip(rm1, rm2):
+                try:
+                    ok = a == b and hash(a) == hash(b) and (a == 'not a relation') is False and (a != None) is True  # noqa: E711
+                    ok = ok and all((a == c) == (a is c or (a.name, a.source_id, a.target_id, a.subtype, a.lexicon().specifier()) ==
+                                                 (c.name, c.source_id, c.target_id, c.subtype, c.lexicon().specifier())) for c in rm1)
+                except Exception as exc:
+                    ok = False
+                    a = f'{a!r} ({type(exc).__name__}: {exc})'
+                if not ok:
+                    rec.violation('relation-value-semantics', f'{label}: {key}.relation_map(): relation {a} does not behave as a value under ==/hash')
+                    break
             for T in argsets:
                 edges = model_edges(view, key, kind, T)
                 names = {}
@@ -221,9 +236,11 @@ def check_entities(rec, w, view, steps, r, label):
                 steps.cap = 200 * (len(want_reach) + 1) + 500
                 steps.armed = True
                 got_c = []
+                reach_obj = {}
                 try:
                     for y in x.closure(*T):
                         got_c.append(_k(y))
+                        reach_obj[got_c[-1]] = y
                         if len(got_c) > len(want_reach) + 50 or steps.n > budget * 20:
                             rec.violation('closure-runaway', f'{label}: {key}.closure{T} yielded {len(got_c)} items / {steps.n} expansions '
                                           f'for {len(want_reach)} reachable entities')
@@ -283,6 +300,23 @@ def check_entities(rec, w, view, steps, r, label):
                     rec.violation(f'relation_paths:{kind}', f'{label}: {key}.relation_paths{T}: ' + fmt(d))
                 elif steps.n > 50 * (prefixes + 1):
                     rec.violation('paths-step-budget', f'{label}: {key}.relation_paths{T}: {steps.n} expansions for {prefixes} path prefixes')
+                elif want_paths and reach_obj:
+                    # relation_paths(end=e): exactly the simple paths from the entity to e (each is a prefix of a maximal one)
+                    ekey = r.choice(sorted(reach_obj))
+                    want_e = [list(q) for q in dict.fromkeys(tuple(p_[:p_.index(ekey) + 1]) for p_ in want_paths if ekey in p_)]
+                    steps.n = 0
+                    steps.armed = True
+                    try:
+                        got_e = [[_k(y) for y in path] for path in x.relation_paths(*T, end=reach_obj[ekey])]
+                    except StepBudget as exc:
+                        rec.violation('paths-runaway', f'{label}: {key}.relation_paths{T} end={ekey}: {exc}')
+                        got_e = None
+                    steps.armed = False
+                    rec.event('paths.end.compared')
+                    if got_e is not None:
+                        d = diff(Bag(want_e), got_e)
+                        if d:
+                            rec.violation(f'relation_paths-end:{kind}', f'{label}: {key}.relation_paths{T} end={ekey}: ' + fmt(d))
             if kind == 'synset':
                 for meth, T in (('hypernyms', ('hypernym', 'instance_hypernym')), ('hyponyms', ('hyponym', 'instance_hyponym')),
                                 ('holonyms', ('holonym', 'holo_location', 'holo_member', 'holo_part', 'holo_portion', 'holo_substance')),
